@@ -10,6 +10,20 @@ BASELINE_OFF = ("cd /repo && env -u PYOPENAPI_GEN_VERIF /venv/bin/python -m pyte
 
 # id -> (category, technique, level text, level note, design ref)
 CHECKS = {
+    "C04": ("exploration", "runtime monitoring: wire capture (httpx.MockTransport under the generated HttpxTransport) compared with an expected-request model",
+            "Generated operations are called in a fresh interpreter through the emitted package's own transport; the captured httpx.Request is compared with an "
+            "expected request built from the expectation model and the concrete argument values: exactly one request, HTTP method, path with substituted values, "
+            "every supplied query/header parameter under its original name and wire encoding, omitted optionals absent, body media type and content (JSON tolerant "
+            "equality, form, multipart parts, raw bytes). Every subset of the optional arguments for operations with <=4 optionals. Held on what was observed.",
+            "Model-typed arguments are built with the package's own converter; header values are visible ASCII; unions excluded (C14).",
+            "DESIGN.md §4 C04"),
+    "C05": ("exploration", "runtime monitoring: fake server inside the probe + typed-return / re-serialisation oracle on the generated methods",
+            "For every declared 2xx response of every generated operation the MockTransport answers with that status, media type and a schema-conforming body; the call "
+            "must not raise, must return a value structurally matching typing.get_type_hints of the method, and its re-serialisation with the package's own converter "
+            "must equal the body (tolerant equality); content-less responses return None; text verbatim; SSE / NDJSON / byte streams yield the sent items in order "
+            "under random chunking.",
+            "Bodies come from the harness' instance generator; unions excluded (C14).",
+            "DESIGN.md §4 C05"),
     "C07": ("exploration", "runtime monitoring: behavioural bijection between input operations and generated methods via wire capture; warnings monitor; icontract postcondition on the real de-duplication",
             "Documents with varied tag assignments (none/one/several/spelling variants), operationId shapes (absent, colliding after sanitisation, FastAPI-suffixed), "
             "3 naming strategies and JSON/YAML renderings (incl. unquoted integer status keys) are generated; in a fresh interpreter every public coroutine / "
